@@ -2500,9 +2500,6 @@ impl InferContext {
                         let _rel = self.unify_types(field_type, value_type)?;
                         Ok(unit!())
                     }
-                    Expr::ArrayAccess(_, _) => {
-                        unimplemented!("Assignment to array is not implemented yet.")
-                    }
                     _ => {
                         // This should be caught by parser, but add a generic error just in case
                         Err(vec![Error::VariableNotFound(
